@@ -67,6 +67,9 @@ def run(rep):
     x11(rep, w)
     x12(rep, w)
     x13(rep, w)
+    x14(rep, w)
+    import c15
+    c15.n1(rep, w)     # the exception-in-flight flag does not survive into the next run (a later try statement would re-raise a phantom)
 
 
 def x1(rep, w):
@@ -163,6 +166,15 @@ def x2(rep, w):
                 'registered, so a later, unrelated throw is delivered to the abandoned catch block' % nm, f.loc())
 
 
+_dom_cache = {}
+
+
+def dom_of(f):
+    if id(f) not in _dom_cache:
+        _dom_cache[id(f)] = f.dominators()
+    return _dom_cache[id(f)]
+
+
 def x3(rep, w):
     c = w.yarel
     r = rep.rule('X3', 'a function that removes call frames also removes the handlers registered by those frames', floor=3)
@@ -206,9 +218,40 @@ def x3(rep, w):
                 pl = op_place(t['args'][0])
                 if pl is not None and any(roles.resolve(w)['handlers'] in q for q in (org or {}).get(pl['l'], ())):
                     touches = True
-        r.check(touches, f.path, 'call frames are removed (%s) but the handlers those frames registered stay on exc_handlers: a later throw is '
-                'delivered to a catch address inside a function that has already returned' % hits[0][1].rsplit('::', 1)[-1],
-                f.loc(f.blocks[hits[0][0]]['t'].get('sp')))
+        if not r.check(touches, f.path, 'call frames are removed (%s) but the handlers those frames registered stay on exc_handlers: a later throw is '
+                       'delivered to a catch address inside a function that has already returned' % hits[0][1].rsplit('::', 1)[-1],
+                       f.loc(f.blocks[hits[0][0]]['t'].get('sp'))):
+            continue
+        # ... on the same fiber: the handler list is adjusted before control can pass to another fiber (active_fiber_mut() then names the
+        # caller, whose handlers would be cut down with the finished fiber's frame count)
+        switchers = w.can_reach({VM + 'load_fiber', VM + 'unload_fiber'}) | {VM + 'load_fiber', VM + 'unload_fiber'}
+        hblocks = set()
+        for bi, t in f.calls():
+            name = callee_name(t) or ''
+            sn = strip_generics(name)
+            if name == 'yarel::object::ObjFiber::pop_exc_handler':
+                hblocks.add(bi)
+            if sn in ('std::vec::Vec::pop', 'std::vec::Vec::truncate', 'std::vec::Vec::clear', 'std::vec::Vec::retain', 'std::vec::Vec::drain'):
+                pl = op_place(t['args'][0])
+                if pl is not None and any(roles.resolve(w)['handlers'] in q for q in (org or {}).get(pl['l'], ())):
+                    hblocks.add(bi)
+        sw = {bi for bi, t in f.calls() if callee_name(t) in switchers and callee_name(t) != f.path}
+        straddle = False
+        for hb, _ in hits:
+            if hb in f.reachable_blocks(0) and any(h_ in dom_of(f).get(hb, ()) for h_ in hblocks):
+                continue      # handlers were dealt with before the frames went (unwind_stack pops the handler first)
+            seen, stack = set(), list(f.succs()[hb])
+            while stack:
+                b = stack.pop()
+                if b in seen or b in hblocks:
+                    continue
+                seen.add(b)
+                if b in sw:
+                    straddle = True
+                    break
+                stack.extend(f.succs()[b])
+        r.check(not straddle, f.path + ' / handlers dropped before any fiber switch', 'between removing the frames and dropping their handlers control can pass to another fiber '
+                '(unload_fiber / load_fiber): the handler list that is then cut down belongs to the other fiber - a try block around a fiber call loses its handler when the fiber finishes', f.loc())
 
 
 def x4(rep, w):
@@ -644,3 +687,19 @@ def x13(rep, w):
     r.check((not nests) or (counted and all(l for _, l in sites)), 'return through nested try statements',
             'try statements nest but the compiler keeps a %s (%s) and emits a single JumpFinally per return: `try { try { return v; } finally { A } } finally { B }` runs A only, and '
             'the outer handler stays registered until the frame is torn down' % (fty[1] if fty else 'flag', fty[0] if fty else '?'))
+
+
+def x14(rep, w):
+    """"the original outcome then continues": a value returned from inside a try block is parked outside the operand stack while the
+    finally block runs; the finally block may allocate, so the parked value has to be visible to the collector"""
+    r = rep.rule('X14', 'the return value parked while a finally block runs is traced by the collector', floor=1)
+    jf = w.require_fn(VM + 'jump_finally_impl', 'C08')
+    _, ws = field_accesses(w, jf)
+    n = 0
+    for (adt, fld) in sorted(ws):
+        ft = next((w.yarel.tstr(fd['t']) for fd in w.yarel.adts[adt]['variants'][0]['fields'] if fd['n'] == fld), '')
+        if 'Value' not in ft or fld in (roles.resolve(w)['stack'],):
+            continue
+        n += c01.edges_traced(r, w, adt, lambda lab, fld=fld: lab[0] == fld, 'a fresh object returned from a try block is reclaimed while the finally block runs and the caller receives a dangling value')
+    if n == 0:
+        raise Broken('C08', 'anchor', 'jump_finally_impl parks no Value-typed state')
